@@ -121,4 +121,20 @@ PROPS = {
         level_text="Randomised exploration of update/lookup/snapshot histories on the real state machine of the metadata store.",
         level_note="Trusted: the model map; path helper semantics (List/ListDir) are compared with a fresh MapStore holding the model's pairs, not re-specified.",
     ),
+    "C06": dict(
+        pkg="c06", level="exploration",
+        tests=[T("TestC06", Q(40000), Q(250000, timeout=900, shards=8))],
+        rule="Stateful histories (1-30 steps) over a model raft log served by a fake dragonboat log reader with the real reader's contract (>=1 entry even if over maxSize, compacted/unavailable errors): "
+             "append entries of every raft type (encoded regatta command, empty application, config change, metadata; 0-5000 byte payloads), advance applied, compact (+LogCompacted to the cache), "
+             "query(start, maxSize in {1..4MiB}) on logreader.Simple and logreader.Cached (cache sizes 1-64, warm from earlier queries) with end = applied+1, and LogServer.Replicate(start) over both readers "
+             "with a recording stream; plus a final sweep of queries from every start index. Oracle: entries == log[start..start+k-1], k>=1, byte-identical, none beyond applied, compacted => ErrLogAhead/USE_SNAPSHOT, "
+             "beyond applied+1 => LEADER_BEHIND, at applied+1 => empty batch carrying applied; streamed commands dense, labelled with own index, non-application entries as DUMMY, terminated by the empty batch. "
+             "Non-trivial iff a Cached query was served partly from cache and partly from the log (prepend or append path) or the first served entry alone exceeded maxSize. Distinct = sha256 of case JSON.",
+        assumptions=["the fake log reader implements dragonboat's ReadonlyLogReader contract (read from internal/logdb/logreader.go)",
+                     "LogCompacted reaches the cache together with the compaction (the engine forwards the event asynchronously; the window in between is not modelled)",
+                     "query end is always applied+1 and applied only grows (stated in the property)"],
+        technique="stateful model-based property testing + differential Simple vs Cached reader",
+        level_text="Randomised exploration of log/compaction/cache histories with exact comparison against a model log.",
+        level_note="Trusted: the fake reader's fidelity to dragonboat; the real dragonboat reader is exercised in C05.",
+    ),
 }
